@@ -84,7 +84,13 @@ type static[T any] struct {
 }
 
 func (d *static[T]) GetKey(k string) *T {
-	return d.val.Load()
+	v := d.val.Load()
+	if v == nil || GetKey(*v) != k {
+		// Like every other collection: only the object with this key. A JoinCollection looks a key up in
+		// each of its collections and takes the first answer.
+		return nil
+	}
+	return v
 }
 
 func (d *static[T]) List() []T {
